@@ -310,6 +310,29 @@ def toast_tile_for_point(depth, lat, lon, coordsys=ToastCoordinateSystem.ASTRONO
     return tile
 
 
+def _level0_tile_get_coords(coordsys):
+    """
+    Get the coordinates of the pixel centers of the single level-0 TOAST tile.
+
+    The level-0 tile covers the whole sphere and has no corner information of
+    its own; its pixel grid is assembled from the four level-1 tiles, each
+    contributing one 128x128 quadrant.
+    """
+    lons = np.empty((256, 256))
+    lats = np.empty((256, 256))
+
+    for t in _create_level1_tiles(coordsys):
+        qlons, qlats = subsample(
+            t.corners[0], t.corners[1], t.corners[2], t.corners[3], 128, t.increasing
+        )
+        rows = slice(128 * t.pos.y, 128 * (t.pos.y + 1))
+        cols = slice(128 * t.pos.x, 128 * (t.pos.x + 1))
+        lons[rows, cols] = qlons
+        lats[rows, cols] = qlats
+
+    return lons, lats
+
+
 def toast_tile_get_coords(tile):
     """
     Get the coordinates of the pixel centers of a TOAST Tile.
@@ -370,7 +393,10 @@ def toast_pixel_for_point(depth, lat, lon, coordsys=ToastCoordinateSystem.ASTRON
     # Now that we have the tile, get its pixel locations and identify the pixel
     # that is closest to the input position.
 
-    lons, lats = toast_tile_get_coords(tile)
+    if tile.pos.n == 0:
+        lons, lats = _level0_tile_get_coords(coordsys)
+    else:
+        lons, lats = toast_tile_get_coords(tile)
 
     # The pixel longitudes may be reported on a different 2pi branch than *lon*
     # (e.g. in [-pi/2, 0] for lon ~ 3pi/2). Bring them onto the branch around
@@ -666,7 +692,7 @@ def sample_layer(
     from .pyramid import Pyramid
 
     p = Pyramid.new_toast(depth, coordsys=coordsys)
-    proc = ToastSampler(pio, sampler, True, format=format)
+    proc = ToastSampler(pio, sampler, True, format=format, coordsys=coordsys)
     p.visit_leaves(proc.visit_callback, parallel=parallel, cli_progress=cli_progress)
 
 
@@ -711,7 +737,7 @@ def sample_layer_filtered(
     from .pyramid import Pyramid
 
     p = Pyramid.new_toast_filtered(depth, tile_filter, coordsys=coordsys)
-    proc = ToastSampler(pio, sampler, False, format=format)
+    proc = ToastSampler(pio, sampler, False, format=format, coordsys=coordsys)
     p.visit_leaves(proc.visit_callback, parallel=parallel, cli_progress=cli_progress)
 
 
@@ -733,6 +759,10 @@ class ToastSampler(object):
     format : optional :class:`str`
         If provided, override the default data storage format of *pio* with the
         named format, one of the values in ``toasty.image.SUPPORTED_FORMATS``.
+    coordsys : optional :class:`ToastCoordinateSystem`
+        The TOAST coordinate system of the pyramid being sampled. Default is
+        :attr:`ToastCoordinateSystem.ASTRONOMICAL`. It is only needed for the
+        level-0 tile, which has no tile geometry of its own.
 
     Notes
     -----
@@ -740,15 +770,27 @@ class ToastSampler(object):
     the :meth:`toasty.pyramid.Pyramid.visit_leaves` function. This class
     preserves some state between calls to help speed up processing."""
 
-    def __init__(self, pio, sampler, clobber, format=None):
+    def __init__(
+        self,
+        pio,
+        sampler,
+        clobber,
+        format=None,
+        coordsys=ToastCoordinateSystem.ASTRONOMICAL,
+    ):
         self._pio = pio
         self._sampler = sampler
         self._clobber = clobber
         self._format = format
+        self._coordsys = coordsys
         self._invert_into_tiles = pio.get_default_vertical_parity_sign() == 1
 
     def visit_callback(self, pos, tile):
-        lon, lat = toast_tile_get_coords(tile)
+        if tile is None:
+            # Only happens for the level-0 tile of a depth-0 pyramid.
+            lon, lat = _level0_tile_get_coords(self._coordsys)
+        else:
+            lon, lat = toast_tile_get_coords(tile)
         sampled_data = self._sampler(lon, lat)
 
         if self._invert_into_tiles:
